@@ -3,7 +3,7 @@ import os
 import vlib
 
 
-def run_both(mode, cases, tag, timeout=1800, allmism=False):
+def run_both(mode, cases, tag, timeout=1800, allmism=False, annotate=False):
     """cases: list of (case_id, [op lines]).  Returns (mismatches, impl_obs_by_case, stats)."""
     os.makedirs(os.path.join(vlib.BUILD, "cases"), exist_ok=True)
     cf = os.path.join(vlib.BUILD, "cases", tag + ".case")
@@ -13,6 +13,8 @@ def run_both(mode, cases, tag, timeout=1800, allmism=False):
             for l in lines:
                 f.write(l + "\n")
     io, mo = cf + ".impl", cf + ".model"
+    if annotate:
+        vlib.run_impl("annotate", cf, cf + ".orc", timeout=timeout)
     t_impl = vlib.run_impl(mode, cf, io, timeout=timeout)
     t_model = vlib.run_model(mode, cf, mo, timeout=timeout)
     impl = vlib.split_cases(vlib.read_lines(io))
